@@ -162,7 +162,8 @@ Qed.
 Lemma effect_swap d v : effect (flip d) (swap_sval v) = option_map swap_winner (effect d v).
 Proof.
   destruct v as [|s e|a g s e], d; cbn; try reflexivity;
-    try (destruct s as [[]|]; reflexivity); try (destruct e as [[]|]; reflexivity);
+    try (destruct s as [f|]; [destruct f|]; reflexivity);
+    try (destruct e as [f|]; [destruct f|]; reflexivity);
     destruct (a || g); reflexivity.
 Qed.
 
@@ -178,7 +179,7 @@ Lemma at_slot_swap S ks d s :
   at_slot (swap_sources S) ks (flip d) s = option_map swap_winner (at_slot S ks d s).
 Proof.
   destruct s as [| |i l]; cbn.
-  - destruct d; cbn; [destruct (f_ser S) as [[]|]|destruct (f_de S) as [[]|]]; reflexivity.
+  - destruct d; cbn; [destruct (f_ser S) as [f|]|destruct (f_de S) as [f|]]; try destruct f; reflexivity.
   - destruct (existsb k_is_hashable ks); [|reflexivity].
     destruct (f_strat S) as [v|]; cbn; [apply effect_swap|reflexivity].
   - destruct (nth_error ks i) as [k|]; cbn; [|reflexivity].
